@@ -41,6 +41,15 @@ CountsF(u) == /\ Cardinality(LinExts(RootNode(W1))) = 210
              /\ Cardinality(AllowedResults(DescWild, W1, Builtins)) = 72
              /\ Cardinality(AllowedResults(DescWild, W2, Builtins)) = 3                              \* ASSUMEd by MC_DescentThm
 \* (the permitted orders of the witnesses are printed by MC_DescentLE, for T8c)
+\* T8e: the container-only formulation gives the same permitted results, for every witness and a battery of queries
+\*   $..*   $..[?@]   $..a   $..[0]   $..[*, 0]   $.*..*   $..*.*   $[*]..[?@ == 0]
+T8eQueries == << <<36,46,46,42>>, <<36,46,46,91,63,64,93>>, <<36,46,46,97>>, <<36,46,46,91,48,93>>, <<36,46,46,91,42,44,32,48,93>>,
+                 <<36,46,42,46,46,42>>, <<36,46,46,42,46,42>>, <<36,91,42,93,46,46,91,63,64,32,61,61,32,48,93>> >>
+T8eOn(d) == \A k \in 1..Len(T8eQueries) :
+               LET segs == Parse(T8eQueries[k], TRUE).v
+               IN  AllowedResultsC(segs, d, Builtins) = AllowedResults(segs, d, Builtins)
+T8eF(u) == \A k \in 1..Len(Witnesses) : T8eOn(Witnesses[k])                                   \* ASSUMEd by MC_DescentThm(Q)
+T8e_smallF(u) == \A d \in SmallTrees(u) : T8eOn(d)                                             \* ASSUMEd by MC_DescentThm
 
 (* ---- graph-shaped data with cycles ----------------------------------------- *)
 \* all graphs over ids 1..n (n <= 3) where every id is a container with at most 2 kids, or a scalar
